@@ -137,14 +137,15 @@ impl Loop {
                 }
             };
 
+            // the constants and the loop value are any i32, the command clamps the result to 16 bit
             if add_step_value {
-                value += x;
+                value = value.saturating_add(x);
             }
             if subtract_const_value {
-                value = x - value;
+                value = x.saturating_sub(value);
             }
             if subtract_x_step {
-                value -= x;
+                value = value.saturating_sub(x);
             }
             parameters.push(value);
         }
@@ -153,9 +154,9 @@ impl Loop {
         // todo: correct delay?
         std::thread::sleep(Duration::from_millis(200 * self.delay as u64));
         if self.from < self.to {
-            self.i += self.step;
+            self.i = self.i.saturating_add(self.step);
         } else {
-            self.i -= self.step;
+            self.i = self.i.saturating_sub(self.step);
         }
 
         match res {
